@@ -258,7 +258,7 @@ func (t Type) DeepCopy() Type {
 	newType := Type{
 		Kind:     t.Kind,
 		Nullable: t.Nullable,
-		Default:  t.Default,
+		Default:  deepCopyValue(t.Default),
 		Hints:    make(JenniesHints, len(t.Hints)),
 	}
 
@@ -304,12 +304,55 @@ func (t Type) DeepCopy() Type {
 	}
 
 	for k, v := range t.Hints {
-		newType.Hints[k] = v
+		newType.Hints[k] = deepCopyValue(v)
 	}
 
 	newType.PassesTrail = append(newType.PassesTrail, t.PassesTrail...)
 
 	return newType
+}
+
+// deepCopyValue copies the structured values that can be found in `any`-typed
+// parts of the IR (defaults, hints, ...): lists, maps and types.
+// Scalars are immutable and returned as-is.
+func deepCopyValue(value any) any {
+	switch v := value.(type) {
+	case []any:
+		if v == nil {
+			return v
+		}
+		newSlice := make([]any, 0, len(v))
+		for _, item := range v {
+			newSlice = append(newSlice, deepCopyValue(item))
+		}
+		return newSlice
+	case map[string]any:
+		if v == nil {
+			return v
+		}
+		newMap := make(map[string]any, len(v))
+		for key, item := range v {
+			newMap[key] = deepCopyValue(item)
+		}
+		return newMap
+	case []string:
+		if v == nil {
+			return v
+		}
+		return append(make([]string, 0, len(v)), v...)
+	case Type:
+		return v.DeepCopy()
+	case *Type:
+		if v == nil {
+			return v
+		}
+		newType := v.DeepCopy()
+		return &newType
+	case DisjunctionType:
+		return v.DeepCopy()
+	default:
+		return value
+	}
 }
 
 type TypeOption func(def *Type)
